@@ -113,3 +113,331 @@ def term_str(t: Term) -> str:
     if not isinstance(t, tuple):
         return str(t)
     return "%s(%s)" % (t[0], ", ".join(term_str(x) for x in t[1:]))
+
+
+# ----------------------------------------------------------------------------------------------------------------------
+# Abstract bit length sets: the operations of the algebra build canonical terms instead of computing sets.
+# ----------------------------------------------------------------------------------------------------------------------
+from .fold import Abstract as _Abstract  # noqa: E402
+
+
+class NeedDecision(Exception):
+    """an abstract truth value was needed that the current decision prefix does not cover"""
+
+    def __init__(self, expr: Any):
+        super().__init__(str(expr))
+        self.expr = expr
+
+
+class Oracle:
+    """decisions for abstract truth values, replayed along one explored run; what was assumed is kept as facts"""
+
+    current: Optional["Oracle"] = None
+
+    def __init__(self, decisions: List[bool]):
+        self.decisions = list(decisions)
+        self.pos = 0
+        self.log: List[Tuple[Any, bool]] = []
+
+    def decide(self, expr: Any) -> bool:
+        for e, v in self.log:
+            if e == expr:
+                return v
+        if self.pos >= len(self.decisions):
+            raise NeedDecision(expr)
+        v = self.decisions[self.pos]
+        self.pos += 1
+        self.log.append((expr, v))
+        return v
+
+    def fact(self, expr: Any) -> Optional[bool]:
+        for e, v in self.log:
+            if e == expr:
+                return v
+        return None
+
+
+def explore(run: Callable[[], Any], max_runs: int = 64) -> List[Tuple[List[Tuple[Any, bool]], Any]]:
+    """all runs of `run` over the decisions of its abstract truth values: [(assumptions, result | exception)]"""
+    out: List[Tuple[List[Tuple[Any, bool]], Any]] = []
+    work: List[List[bool]] = [[]]
+    n = 0
+    prev = Oracle.current
+    try:
+        while work:
+            n += 1
+            if n > max_runs:
+                raise NotLayout("too many abstract branches")
+            dec = work.pop()
+            o = Oracle(dec)
+            Oracle.current = o
+            try:
+                res = run()
+            except NeedDecision:
+                work.append(dec + [False])
+                work.append(dec + [True])
+                continue
+            out.append((list(o.log), res))
+    finally:
+        Oracle.current = prev
+    return out
+
+
+def under(assumptions: List[Tuple[Any, bool]], run: Callable[[], Any]) -> Any:
+    """evaluate `run` with the given assumptions as known facts (no new decisions allowed)"""
+    prev = Oracle.current
+    o = Oracle([])
+    o.log = list(assumptions)
+    Oracle.current = o
+    try:
+        return run()
+    finally:
+        Oracle.current = prev
+
+
+class AbsBool(_Abstract):
+    def __init__(self, expr: Any):
+        self.expr = expr
+
+    def __bool__(self) -> bool:
+        if Oracle.current is None:
+            raise NeedDecision(self.expr)
+        return Oracle.current.decide(self.expr)
+
+    def __repr__(self) -> str:
+        return "AbsBool%r" % (self.expr,)
+
+
+class AbsInt(_Abstract):
+    """an integer that depends on the numeric content of an abstract bit length set"""
+
+    def __init__(self, expr: Any):
+        self.expr = expr
+
+    def _bin(self, op: str, o: Any, swap: bool = False) -> "AbsInt":
+        oe = o.expr if isinstance(o, AbsInt) else o
+        return AbsInt((op, oe, self.expr) if swap else (op, self.expr, oe))
+
+    def __add__(self, o: Any) -> "AbsInt":
+        return self._bin("+", o)
+
+    def __radd__(self, o: Any) -> "AbsInt":
+        return self._bin("+", o, True)
+
+    def __sub__(self, o: Any) -> "AbsInt":
+        return self._bin("-", o)
+
+    def __rsub__(self, o: Any) -> "AbsInt":
+        return self._bin("-", o, True)
+
+    def __mul__(self, o: Any) -> "AbsInt":
+        return self._bin("*", o)
+
+    def __rmul__(self, o: Any) -> "AbsInt":
+        return self._bin("*", o, True)
+
+    def __mod__(self, o: Any) -> "AbsInt":
+        return self._bin("%", o)
+
+    def __floordiv__(self, o: Any) -> "AbsInt":
+        return self._bin("//", o)
+
+    def _cmp(self, op: str, o: Any) -> AbsBool:
+        return AbsBool((op, self.expr, o.expr if isinstance(o, AbsInt) else o))
+
+    def __eq__(self, o: Any) -> Any:  # type: ignore
+        return self._cmp("==", o)
+
+    def __ne__(self, o: Any) -> Any:  # type: ignore
+        return self._cmp("!=", o)
+
+    def __lt__(self, o: Any) -> Any:
+        return self._cmp("<", o)
+
+    def __le__(self, o: Any) -> Any:
+        return self._cmp("<=", o)
+
+    def __gt__(self, o: Any) -> Any:
+        return self._cmp(">", o)
+
+    def __ge__(self, o: Any) -> Any:
+        return self._cmp(">=", o)
+
+    __hash__ = None  # type: ignore
+
+    def __repr__(self) -> str:
+        return "AbsInt%r" % (self.expr,)
+
+
+def mentions_only_min_max(expr: Any) -> bool:
+    """is the abstract condition a function of the set's minimum and maximum alone?"""
+    if isinstance(expr, tuple):
+        if expr and expr[0] in ("min", "max"):
+            return True
+        if expr and expr[0] in ("aligned", "fixed"):
+            return False
+        return all(mentions_only_min_max(x) for x in expr[1:]) if expr and isinstance(expr[0], str) else all(mentions_only_min_max(x) for x in expr)
+    return True
+
+
+def _aligned(term: Any, a: int) -> Optional[bool]:
+    if a == 1:
+        return True
+    if Oracle.current is not None:
+        f = Oracle.current.fact(("aligned", term, a))
+        if f is not None:
+            return f
+    k = term[0]
+    if k == "leaf":
+        return all(v % a == 0 for v in term[1])
+    if k == "var":
+        return True if (len(term) > 2 and term[2] % a == 0) else None
+    if k == "pad":
+        if term[2] % a == 0:
+            return True
+        return None
+    if k in ("rep", "rng"):
+        return True if _aligned(term[1], a) else None
+    if k == "cat":
+        return True if all(_aligned(t, a) for t in term[1:]) else None
+    if k == "uni":
+        return True if all(_aligned(t, a) for t in term[1]) else None
+    return None
+
+
+class TBls(_Abstract):
+    """
+    term := ('var', name) | ('leaf', frozenset of ints) | ('pad', T, a) | ('rep', T, k) | ('rng', T, k)
+          | ('cat', T1, .., Tn) | ('uni', frozenset of T)
+    with the identities of the algebra applied on construction: concatenation is associative and {0} is its unit,
+    singletons concatenate by addition, union is associative / commutative / idempotent, pad(T, 1) = T,
+    pad(pad(T, a), a) = pad(T, a), pad({0}, a) = {0}, BitLengthSet(T) = T.
+    """
+
+    def __init__(self, term: Any):
+        self.term = term
+
+    # ---- constructors
+    @staticmethod
+    def var(name: str, alignment: int = 1) -> "TBls":
+        """an unknown set all of whose elements are multiples of `alignment`"""
+        return TBls(("var", name, alignment))
+
+    @staticmethod
+    def of(x: Any) -> "TBls":
+        if isinstance(x, TBls):
+            return x
+        if isinstance(x, bool):
+            raise TypeError("bool is not a length")
+        if isinstance(x, int):
+            return TBls(("leaf", frozenset([x])))
+        try:
+            vals = frozenset(int(v) for v in x)
+        except Exception:
+            raise TypeError("not a bit length set: %r" % (x,))
+        return TBls(("leaf", vals))
+
+    # ---- algebra
+    def pad_to_alignment(self, a: Any) -> "TBls":
+        a = int(a)
+        if a < 1:
+            raise ValueError("alignment")
+        if a == 1:
+            return self
+        t = self.term
+        if t[0] == "leaf":
+            return TBls(("leaf", frozenset(-(-v // a) * a for v in t[1])))
+        if _aligned(t, a):
+            return self  # padding an aligned set changes nothing
+        return TBls(("pad", t, a))
+
+    def repeat(self, k: Any) -> "TBls":
+        return TBls(("rep", self.term, int(k)))
+
+    def repeat_range(self, k: Any) -> "TBls":
+        return TBls(("rng", self.term, int(k)))
+
+    @staticmethod
+    def concatenate(sets: Any) -> "TBls":
+        parts: List[Any] = []
+        for s in sets:
+            t = TBls.of(s).term
+            for p in t[1:] if t[0] == "cat" else [t]:
+                if p[0] == "leaf" and parts and parts[-1][0] == "leaf":
+                    parts[-1] = ("leaf", frozenset(a + b for a in parts[-1][1] for b in p[1]))
+                else:
+                    parts.append(p)
+        parts = [p for p in parts if p != ("leaf", frozenset([0]))] or [("leaf", frozenset([0]))]
+        return TBls(parts[0] if len(parts) == 1 else ("cat",) + tuple(parts))
+
+    @staticmethod
+    def unite(sets: Any) -> "TBls":
+        items = set()
+        n = 0
+        for s in sets:
+            n += 1
+            t = TBls.of(s).term
+            items |= set(t[1]) if t[0] == "uni" else {t}
+        if n == 0:
+            raise ValueError("union of nothing")
+        leaves = [t for t in items if t[0] == "leaf"]
+        if len(leaves) > 1:
+            merged = ("leaf", frozenset().union(*[t[1] for t in leaves]))
+            items = {t for t in items if t[0] != "leaf"} | {merged}
+        if len(items) == 1:
+            return TBls(next(iter(items)))
+        return TBls(("uni", frozenset(items)))
+
+    def __add__(self, o: Any) -> "TBls":
+        return TBls.concatenate([self, o])
+
+    def __radd__(self, o: Any) -> "TBls":
+        return TBls.concatenate([o, self])
+
+    def __or__(self, o: Any) -> "TBls":
+        return TBls.unite([self, o])
+
+    def __ror__(self, o: Any) -> "TBls":
+        return TBls.unite([o, self])
+
+    def __eq__(self, o: Any) -> bool:
+        return isinstance(o, TBls) and self.term == o.term
+
+    def __hash__(self) -> int:
+        return hash(self.term)
+
+    def is_aligned_at(self, a: Any) -> Any:
+        r = _aligned(self.term, int(a))
+        return r if r is not None else AbsBool(("aligned", self.term, int(a)))
+
+    def is_aligned_at_byte(self) -> Any:
+        return self.is_aligned_at(8)
+
+    @property
+    def min(self) -> Any:
+        return min(self.term[1]) if self.term[0] == "leaf" else AbsInt(("min", self.term))
+
+    @property
+    def max(self) -> Any:
+        return max(self.term[1]) if self.term[0] == "leaf" else AbsInt(("max", self.term))
+
+    @property
+    def fixed_length(self) -> Any:
+        return len(self.term[1]) == 1 if self.term[0] == "leaf" else AbsBool(("fixed", self.term))
+
+    def __repr__(self) -> str:
+        return show_term(self.term)
+
+
+def show_term(t: Any) -> str:
+    if t[0] == "var":
+        return t[1]
+    if t[0] in ("min", "max", "aligned", "fixed"):
+        return "%s(%s)" % (t[0], ", ".join(show_term(x) if isinstance(x, tuple) else str(x) for x in t[1:]))
+    if t[0] == "leaf":
+        return "{%s}" % ",".join(str(v) for v in sorted(t[1]))
+    if t[0] == "uni":
+        return "uni(%s)" % ", ".join(sorted(show_term(x) for x in t[1]))
+    if t[0] == "cat":
+        return "cat(%s)" % ", ".join(show_term(x) for x in t[1:])
+    return "%s(%s, %s)" % (t[0], show_term(t[1]), t[2])
